@@ -761,6 +761,35 @@ func init() {
 }
 
 func init() {
+	// as member-trunc5, but the new leader snapshots and compacts past the stale configuration entry before the
+	// follower rejoins: the follower loses that entry through InstallSnapshot, not through AppendEntries truncation
+	regScenario("member-trunc5-snap", func() *Scenario {
+		sc := scenarioByName("member-trunc5")
+		sc.Conf = func(i int, c *raft.Config) { c.TrailingLogs = 0 }
+		newLeaderIdle := func(w *World) bool {
+			l := w.stableLeader()
+			return l != nil && l.id != w.vals["L1"] && l.id != w.vals["F"] && w.netIdle() && l.r.CommitIndex() == l.r.LastIndex()
+		}
+		var steps []Step
+		for _, st := range sc.Steps {
+			if st.Name == "follower-rejoins-the-majority" {
+				steps = append(steps,
+					stepDo("new-leader-apply-a", newLeaderIdle, func(w *World) { w.apply(w.leader(), 0) }),
+					stepDo("new-leader-apply-b", newLeaderIdle, func(w *World) { w.apply(w.leader(), 0) }),
+					stepDo("new-leader-snapshot", newLeaderIdle, func(w *World) { w.vals["snapc"] = w.snapshot(w.leader()).ID }),
+				)
+				inner := st.When
+				st.When = func(w *World) bool { return w.calls[w.vals["snapc"]].Done && inner(w) }
+			}
+			steps = append(steps, st)
+		}
+		sc.Steps = steps
+		sc.Horizon = 1100
+		return sc
+	})
+}
+
+func init() {
 	// even number of voters: a majority of 4 is 3
 	regScenario("write4", func() *Scenario {
 		sc := scenarioByName("write3")
